@@ -110,7 +110,7 @@ def run(ctx):
                 'from {below, negative, each edge, each mid-bin, last edge, above} of two independent bin sets (linear/log, '
                 '1..4 bins); energy+amplitude x squash_time in {False, sum, mean}; non-trivial = some frequency out of '
                 'range or on an edge')
-    ctx.proof()
+    ctx.proof(extra=['props/Prop_Tie_Spectra.v'])  # translation tie: program regenerated from the source + refinement theorems
     cases = gen_cases(ctx)
     mh = ctx.model_hashes(IMPORTS, [lit(c) for c in cases], EXPR, shard=150)
     bad = None
